@@ -128,8 +128,11 @@ Fixpoint join_with (sep : byte) (l : list str) : str :=
 Definition s_none : str := Eval vm_compute in bs "none".
 Definition s_noelem : str := Eval vm_compute in bs "noelem".
 
-(* a find query: first match only?, start element, path, optional attribute name/value *)
-Record query := mkQ { q_first : bool; q_start : addr; q_path : str; q_attr : option (str * str) }.
+(* the attribute filter of find: the pointers atag and aval, each possibly null *)
+Notation filt := (option str * option str)%type.
+
+(* a find query: first match only?, start element, path, delimiter, attribute filter *)
+Record query := mkQ { q_first : bool; q_start : addr; q_path : str; q_delim : byte; q_attr : filt }.
 
 Definition render_answer (l : list addr) : str :=
   match l with [] => s_none | _ => join_with 44 (map render_addr l) end.
